@@ -3,7 +3,7 @@ BASE = ['src/base/QXmppIq.cpp', 'src/base/QXmppStanza.cpp', 'src/base/QXmppUtils
 IQH_TUS = BASE + ['src/client/QXmppIqHandling.cpp', 'src/client/QXmppClientExtension.cpp', 'src/base/QXmppVersionIq.cpp', 'src/base/QXmppEntityTimeIq.cpp']
 MGR_TUS = BASE + ['src/client/QXmppIqHandling.cpp', 'src/client/QXmppClientExtension.cpp', 'src/base/QXmppVCardIq.cpp', 'src/base/QXmppRosterIq.cpp',
                   'src/base/QXmppDiscoveryIq.cpp', 'src/base/QXmppDataForm.cpp']
-CLI_TUS = BASE + ['src/client/QXmppClient.cpp', 'src/client/QXmppOutgoingClient.cpp', 'src/client/QXmppClientExtension.cpp', 'src/base/QXmppStreamManagement.cpp', 'src/base/QXmppStreamFeatures.cpp']
+CLI_TUS = BASE + ['src/client/QXmppClient.cpp', 'src/client/QXmppClientExtension.cpp', 'src/base/QXmppStreamManagement.cpp', 'src/base/QXmppStreamFeatures.cpp']
 MODELS = ['qt_core.c', 'qt_list.c', 'qt_dom.c', 'qt_object.c', 'c08_models.c']
 BOUND = {
     'iqh_check': 'checkIsIqRequest on <iq/> (and <message/>: noiq) x 6 type keywords x 8 (requests) / 3 (others) payload shapes; id <= 2, from <= 3 arbitrary units',
@@ -11,7 +11,7 @@ BOUND = {
     'iqh_handle': 'handleIqRequests<QXmppVersionIq, QXmppEntityTimeIq> with a handler object (variant<Iq,Error> for one payload, plain Iq for the other); handler outcome result / stanza error / error-typed iq; types x shapes as above',
     'mgr': 'REAL manager handleStanza on one IQ: requests get/set x 8 payload shapes, responses/invalid types {result, error, empty, garbage} x 3 shapes; id <= 2, from <= 3, own bare JID 1..2 arbitrary units',
     'cli_inject': 'QXmppClient::injectIq, chain of 0 / 2 / 1 mock extensions with symbolic verdicts (both overloads), payload none / foreign / version; requests get/set, others: 4 type classes on the 2-extension chain',
-    'cli_stream': 'QXmppOutgoingClient::handleElement -> (signal) QXmppClient::_q_elementReceived -> chain -> QXmppOutgoingClient::handleStanza; chains and payloads as for inject; TLS mode / encryption arbitrary within "session established"',
+    'cli_stream': 'QXmppOutgoingClient::handleElement -> (signal) QXmppClient::_q_elementReceived -> chain -> QXmppOutgoingClient::handleStanza; chains and payloads as for inject; requests: 0..1 own request in flight with arbitrary id <= 2 / addressee <= 3 units (may equal id / from of the incoming iq); TLS mode / encryption arbitrary within "session established"',
     'cli_fallback': 'QXmppOutgoingClient::handleStanza alone: get/set x {no child + from present, foreign child + from absent}',
     'kf': 'demonstration of a known finding: exactly the excluded input class',
 }
@@ -31,7 +31,7 @@ SPEC = dict(
              instances=[I('kf_vcard_request', known_finding='vcard_request_swallowed'), I('kf_roster_get', known_finding='roster_get_swallowed'),
                         I('kf_roster_ack_to', known_finding='roster_ack_to_missing')]),
         dict(name='client', harness='h_client.cpp', tus=CLI_TUS, models=MODELS + ['c08_client.c'], shadow_task=True, loop_bounds={r'^_ZNSt6ranges14__copy_or_move': 110},
-             instances=[I('cli_' + n) for n in ('inject_req', 'inject_resp', 'inject_e2ee_req', 'inject_noiq', 'stream_req', 'stream_resp', 'fallback_req')] + [I('cli_inject_e2ee_resp', tiers=('thorough',))]),
+             instances=[I('cli_' + n) for n in ('inject_req', 'inject_resp', 'inject_e2ee_req', 'inject_noiq', 'stream_resp', 'fallback_req')] + [I('cli_stream_req', mem_gb=8, timeout_s=400)] + [I('cli_inject_e2ee_resp', tiers=('thorough',))]),
     ],
     bounds=[
         'one incoming element per run; its STRUCTURE is case-split inside each instance (one switch branch per combination, all decided by the solver in one query): IQ type keyword in {get, set, result, error, empty (= absent), garbage = 1..6 arbitrary UTF-16 units spelling none of the four}; payload shapes per harness (<= 8) out of: no child, foreign <ping xmlns=urn:xmpp:ping/>, the payloads of the five managers (query@jabber:iq:version, time@urn:xmpp:time, query@disco#info, query@disco#items, vCard@vcard-temp, query@jabber:iq:roster), <query/> without namespace, right namespace under a wrong tag, foreign element FOLLOWED by the payload (2 children)',
@@ -44,14 +44,14 @@ SPEC = dict(
         'an absent attribute and an empty attribute are the same for the code under check (QDomElement::attribute(name) returns the empty default: Qt contract); "from absent" is therefore run as "from empty", except in cli_fallback_req where the attribute is really absent',
         'a reply without "to" counts as addressed to the requester iff the request had no/empty from or from == own bare JID (RFC 6120 8.1.1.1 / 10.3.3: a stanza without to is handled by the server on behalf of the own account)',
         'groups iqh/mgr: QXmppClient is raw storage; QXmppClient::reply / sendPacket record type(), id(), to() of the stanza (read through the real getters); configuration().jidBare() is a harness-chosen string; the manager objects are raw storage with live private data and m_client; signals end in QMetaObject::activate (ghost log); QXmppDiscoveryManager::capabilities() is cut to an empty disco#info IQ (feature list: C20); QDateTime/QTimeZone are opaque words, date <-> text conversions of QXmppUtils are cut',
-        'group client: QXmppClient / QXmppClientPrivate / QXmppOutgoingClient / QXmppOutgoingClientPrivate are raw storage with only d pointers, extension list, stream pointer, encryptionExtension == nullptr, stream-ack counters and an EMPTY table of pending own requests alive; QXmppPacket(const QXmppNonza&) runs the REAL toXml into the writer tree model and StreamAckManager::send / sendPacketCompat log that tree (socket and stream-management accounting: C09); signal QXmppOutgoingClient::elementReceived is a direct call of QXmppClient::_q_elementReceived (connection made in the QXmppClient constructor); QXmppElement(const QDomElement&) (generic payload copy handed to iqReceived) is cut to an empty element',
+        'group client: QXmppClient / QXmppClientPrivate / QXmppOutgoingClient / QXmppOutgoingClientPrivate are raw storage with only d pointers, extension list, stream pointer, encryptionExtension == nullptr, stream-ack counters and the table of pending own requests alive (class-level std::unordered_map<QString, IqState> model copied from harness/C07, the real QXmppOutgoingClient.cpp is compiled against it): cli_stream_req holds 0..1 pending request with arbitrary id (<= 2 units) and addressee (<= 3 units) so that id/from of the incoming request may coincide with it, the other instances an empty table; QXmppPacket(const QXmppNonza&) runs the REAL toXml into the writer tree model and StreamAckManager::send / sendPacketCompat log that tree (socket and stream-management accounting: C09); signal QXmppOutgoingClient::elementReceived is a direct call of QXmppClient::_q_elementReceived (connection made in the QXmppClient constructor); QXmppElement(const QDomElement&) (generic payload copy handed to iqReceived) is cut to an empty element',
         'connected client = session established: with QXmppConfiguration::TLSRequired the link is encrypted (on a not yet encrypted link the client deliberately sends nothing at all: C04); streamSecurityMode() and QSslSocket::isEncrypted() are harness-controlled under that assumption',
         'a mock extension obeys the contract that the iqh/mgr groups prove for the real managers: handleStanza()==true for a get/set => it sent exactly one reply (ghost event); false => nothing sent; never a reply to result/error/invalid types',
         'QXmppTask/QXmppPromise are the assume-guarantee shadow (models/shadow/task_shadow.h, contract established by C13)',
     ],
     outside=[
         'the other ~25 bundled managers; the end-to-end-encryption send path (QXmppClient::sendSensitive with an encryption extension, encrypted IQ decryption before injectIq)',
-        'IQs that arrive while own requests are pending (OutgoingIqManager matching by id/from: C07); presence/message stanzas; elements outside jabber:client (rejected as stream errors)',
+        'result/error IQs that arrive while own requests are pending (OutgoingIqManager matching by id/from: C07; incoming get/set with 0..1 pending request ARE covered by cli_stream_req); presence/message stanzas; elements outside jabber:client (rejected as stream errors)',
         'the QXmppTask-returning handler form documented in QXmppIqHandling.h: Private::processHandleIqResult(..., QXmppTask<T>) does not compile for any T (its continuation passes an lvalue to overloads that only take rvalues / forwarding references constrained to non-reference types), so it has no instantiation to check',
         'QXmppRosterManager with <item/> children (item bookkeeping: C12) - the acknowledgement is sent before the items are looked at; content of replies beyond type/id/to (and the error condition of the fallback)',
         'what the serialised reply looks like for the managers\' payload classes (QXmppVersionIq/QXmppEntityTimeIq/QXmppDiscoveryIq::toXml): groups iqh/mgr read the envelope through getters; the wire form is checked for the client\'s own error replies (group client)',
